@@ -58,6 +58,10 @@ impl Bindings {
         m
     }
 
+    pub fn max_real_call_serial(&self) -> u32 {
+        self.s_hist.values().map(|(_, r)| *r).max().unwrap_or(0)
+    }
+
     pub fn cookie_real(&self, syn: Uuid) -> Option<Uuid> {
         self.c_s2r.get(&syn).copied()
     }
